@@ -47,7 +47,7 @@ func fieldStores(a *ssa.Alloc) map[string][]ssa.Value {
 		}
 		for _, r2 := range *fa.Referrers() {
 			if s, ok := r2.(*ssa.Store); ok && s.Addr == fa {
-				res[st.Field(fa.Field).Name()] = append(res[st.Field(fa.Field).Name()], s.Val)
+				res[core.FieldLabel(st, fa.Field)] = append(res[core.FieldLabel(st, fa.Field)], s.Val)
 			}
 		}
 	}
@@ -60,7 +60,7 @@ func C19(p *core.Program, r *core.Report) {
 	r.NotCovered = "parsing of ids/params from path and query (string-valued behaviour), net/url's own host parsing, what surrounds the placeholder (C05/C09)."
 
 	// H1
-	hrd := mustFunc(p, r, "H1", hasRootDomainKey)
+	hrd := mustInl(p, r, "H1", hasRootDomainKey)
 	if hrd != nil {
 		opts := core.DecisionOpts{Outcome: func(in ssa.Instruction, c *core.Canon) (string, bool) {
 			if ret, ok := in.(*ssa.Return); ok {
@@ -217,7 +217,7 @@ func C19(p *core.Program, r *core.Report) {
 	// H5: the placeholder carries exactly the extracted type and id: it is built as a DOM element
 	// (attributes set through dom.SetAttribute, so the serializer escapes them) and serialised
 	// with dom.OuterHTML.
-	if gen := mustFunc(p, r, "H5", "(*mod/internal/webdoc.Embed).GenerateOutput"); gen != nil {
+	if gen := mustInl(p, r, "H5", "(*mod/internal/webdoc.Embed).GenerateOutput"); gen != nil {
 		c := core.NewCanon(p)
 		div := `dom.CreateElement("div")`
 		attrs := map[string]string{}
@@ -242,14 +242,19 @@ func C19(p *core.Program, r *core.Report) {
 	tbl := converterSwitch(p, r, "H4")
 	if tbl != nil {
 		for _, tag := range []string{"iframe", "object", "embed"} {
-			cl := tbl.ByLabel[tag]
-			ok := cl != nil && cl.AlwaysReturnsFalse && !cl.Calls["StartNode"]
-			why := "clause missing"
-			if cl != nil {
-				why = cl.Describe()
+			cl := tbl.For(tag)
+			ok := cl.Paths > 0 && cl.AlwaysReturnsFalse && !cl.Calls["StartNode"]
+			r.Add("H4", "converter: "+tag+" is dropped when not extracted", tbl.Pos, ok, cl.Describe())
+			// and it is offered to the extractors before being dropped
+			offered := false
+			for _, pa := range consistentWith(tbl.vm.paths, "dom.TagName($1)", tag) {
+				for _, ev := range builderCalls(pa) {
+					if strings.HasPrefix(ev, "AddEmbed(") {
+						offered = true
+					}
+				}
 			}
-			r.Add("H4", "converter switch: "+tag+" is dropped when not extracted", tbl.Pos, ok, why)
+			r.Add("H4", "converter: "+tag+" is offered to the embed extractors before it is dropped", tbl.Pos, offered, "some decision path for the tag hands an extracted embed to the builder")
 		}
-		r.Add("H4", "embed extraction precedes the tag switch", tbl.Pos, tbl.ExtractBeforeSwitch, "the extractor loop must run before the skip switch")
 	}
 }
